@@ -293,6 +293,71 @@ theorem no_panic_stave_valid_layers (cfg : CheckCfg) (ps : List Packet)
     · simp [h2, h4]
     · simp [h2, h4, this]
 
+/-! ### the dispatcher: one validator per id, none of them panics -/
+
+theorem linkStep_safe (cfg : CheckCfg) (s : LinkSt) (p : Packet) (hi : IhwInv s.cdp)
+    (hl : cfg.stave = true → (barrelOfFee p.rdh.feeId).isSome = true) :
+    ∃ s1 m1, linkStep cfg s p = .ok (s1, m1) ∧ IhwInv s1.cdp := by
+  unfold linkStep
+  simp only
+  split
+  · obtain ⟨c', m3, h3, hi3, _⟩ := payloadChecks_safe cfg s.cdp p.offset p.rdh p.payload hi (fun hst => Or.inr (hl hst))
+    rw [h3]
+    exact ⟨_, _, rfl, hi3⟩
+  · exact ⟨_, _, rfl, hi⟩
+
+def AllIhwInv (d : DispSt) : Prop := ∀ x ∈ d, IhwInv x.2.1.cdp
+
+theorem upd_safe (cfg : CheckCfg) (p : Packet) (id : Nat)
+    (hl : cfg.stave = true → (barrelOfFee p.rdh.feeId).isSome = true) :
+    ∀ d, AllIhwInv d → ∃ d', dispStep.upd cfg p id d = .ok d' ∧ AllIhwInv d' := by
+  intro d
+  induction d with
+  | nil =>
+    intro _
+    obtain ⟨s1, m1, h1, hi1⟩ := linkStep_safe cfg (LinkSt.init cfg) p (Or.inr rfl) hl
+    refine ⟨[(id, s1, m1)], by simp [dispStep.upd, h1], ?_⟩
+    intro x hx
+    simp only [List.mem_singleton] at hx
+    subst hx; exact hi1
+  | cons y ys ih =>
+    intro hall
+    obtain ⟨i, s, ms⟩ := y
+    simp only [dispStep.upd]
+    split
+    · obtain ⟨s1, m1, h1, hi1⟩ := linkStep_safe cfg s p (hall (i, s, ms) (by simp)) hl
+      refine ⟨(i, s1, ms ++ m1) :: ys, by simp [h1], ?_⟩
+      intro x hx
+      simp only [List.mem_cons] at hx
+      rcases hx with rfl | hx
+      · exact hi1
+      · exact hall x (by simp [hx])
+    · obtain ⟨d', hd', hall'⟩ := ih (fun x hx => hall x (by simp [hx]))
+      refine ⟨(i, s, ms) :: d', by simp [hd'], ?_⟩
+      intro x hx
+      simp only [List.mem_cons] at hx
+      rcases hx with rfl | hx
+      · exact hall _ (by simp)
+      · exact hall' x hx
+
+/-- **C04 (all validators of a run)**: the dispatcher with its validators — one per link, or per
+    FEE ID in stave mode — returns normally for every packet list, arbitrary contents, any
+    interleaving; in stave mode provided no FEE ID has layer 7 (the known finding) -/
+theorem runValidators_safe (cfg : CheckCfg) (ps : List Packet)
+    (hlayer : cfg.stave = true → ∀ p ∈ ps, (barrelOfFee p.rdh.feeId).isSome = true) :
+    ∀ d, AllIhwInv d → ∃ d', runValidators cfg d ps = .ok d' := by
+  induction ps with
+  | nil => intro d _; exact ⟨d, rfl⟩
+  | cons p ps ih =>
+    intro d hall
+    obtain ⟨d1, h1, hall1⟩ := upd_safe cfg p (dispatchId cfg p.rdh) (fun hst => hlayer hst p (by simp)) d hall
+    obtain ⟨d2, h2⟩ := ih (fun hst q hq => hlayer hst q (by simp [hq])) d1 hall1
+    exact ⟨d2, by simp [runValidators, dispStep, h1, h2]⟩
+
+theorem no_panic_all_validators_nonstave (cfg : CheckCfg) (hst : cfg.stave = false) (ps : List Packet) :
+    ∃ d, runValidators cfg [] ps = .ok d :=
+  runValidators_safe cfg ps (fun h => by simp [hst] at h) [] (fun x hx => by simp at hx)
+
 /-! ### linear work: every delivered packet consumes at least its 64-byte header -/
 
 
